@@ -29,8 +29,9 @@ TABLES = {
     "longest3": "01=a\n02=aa\n03=aaa\n04=b\n",
     "mixedcase": "41=A\n61=a\n42=B\n",
     "space": "20= \n21=a \n22=a\n",
+    "leading-blank": "80= t\n81=t\n82= \n83=\tq\n84=q\n",
 }
-QUICK_TABLES = ["single", "overlap", "multibyte", "brackets", "nested", "twobyte", "digits", "longest3", "ignore"]
+QUICK_TABLES = ["single", "overlap", "multibyte", "brackets", "nested", "twobyte", "digits", "longest3", "ignore", "leading-blank"]
 
 # string templates: '?' = free symbolic character, 'h' = symbolic hex digit, others literal
 TEMPLATES_QUICK = ["", "?", "??", "???", "[0xhh]", "?[0xhh]", "[0xhh]?", "[0xh]?", "[0xhhh]", "[0x]?", "??[0xhh]"]
@@ -38,8 +39,8 @@ TEMPLATES_THOROUGH = TEMPLATES_QUICK + ["????", "?[0xhh]?", "[0xhh][0xhh]", "??[
 
 META = {
     "bounds": {
-        "quick": "9 tables x 11 string templates (up to 3 free symbolic characters over the table alphabet + '[' ']' '0' 'x' + two unknown characters; escapes with symbolic hex digits); codec API and .text directive (top level, inherited scope, scope with its own table)",
-        "thorough": "14 tables x 17 templates (up to 4 free characters, two escapes)",
+        "quick": "10 tables x 11 string templates (up to 3 free symbolic characters over the table alphabet + '[' ']' '0' 'x' + two unknown characters; escapes with symbolic hex digits); codec API and .text directive (top level, inherited scope, scope with its own table)",
+        "thorough": "15 tables x 17 templates (up to 4 free characters, two escapes)",
     },
     "outside": ["escapes with 1 or >= 3 hex digits (statement says NN): any behaviour accepted", "characters above 255", "strings longer than the templates", "quote / backslash / newline inside the .text literal"],
     "oracle": "oracles/table.py: independent .tbl parser and longest-match tokeniser, executed relative to the implementation's path condition (vf/oraclex.py)",
